@@ -18,7 +18,10 @@ variable {K : Type} [Field K] [LinearOrder K] [IsStrictOrderedRing K]
 
 /-- the subset gradient is the "subset gradient plus sensitivity" minus the subset sensitivity, voxel by voxel,
     exactly (thresholds, end-plane clearing, trivial / non-trivial normalisation included), when the sensitivity is
-    computed with the same projector on the same viewgrams (i.e. not for TOF data with a non-TOF sensitivity projector) -/
+    computed with the same projector on the same viewgrams (i.e. not for TOF data with a non-TOF sensitivity projector).
+    A `Bin` carries its own chain of factors, so this covers normalisation factors that differ from TOF bin to TOF bin
+    (`BinNormalisationFromProjData` on TOF data, cxx:134/:145) — the configurations in which the library itself switches to
+    the same projector, `C05_tof_norm_uses_same_projector` below; the harness runs them since the extension of C05 -/
 theorem C05_grad_eq_gradPlusSens_sub_sens (c : Consts K) (zero : Bool) (img : Nat → K) (S : List (Viewgram K)) (v : Nat) :
     grad c zero img S v = gradPlusSens c zero img S v - sens zero S v :=
   grad_eq_gradPlusSens_sub_sens c zero img S v
@@ -91,6 +94,92 @@ theorem C05_penalised_hessian_sum_over_subsets {α} (q : α → K) (priorOfInput
     sumMap (fun S => penalisedHess (q S) priorOfInput (Ss.length : K)) Ss = sumMap q Ss - priorOfInput :=
   penalised_sum q priorOfInput Ss hn
 
+/-- the full-data functions on an object with a prior (`compute_objective_function(image)`, `compute_gradient`): the
+    unpenalised full-data quantity minus the whole prior term — which is what the penalised subset quantities add up to -/
+theorem C05_penalised_full_eq_sum_over_subsets {α} (q : α → K) (p : K) (Ss : List α) (hn : Ss ≠ []) :
+    penalisedFull (sumMap q Ss) p = sumMap (fun S => penalised (q S) p (Ss.length : K)) Ss := by
+  rw [penalised_sum q p Ss hn]; rfl
+
+/-- `accumulate_Hessian_times_input` on an object with a prior (the subsets accumulated one after the other into the same
+    output, every step penalised with the share `H_prior·input / num_subsets`) is the unpenalised full-data Hessian product
+    minus the whole prior term `H_prior·input` -/
+theorem C05_penalised_full_hessTimes (c : Consts K) (img x : Nat → K) (Ss : List (List (Viewgram K)))
+    (All : List (Viewgram K)) (h : Ss.flatten.Perm All) (hn : Ss ≠ []) (priorOfInput out0 : K) (v : Nat) :
+    hessTimesPenFull c img x priorOfInput (Ss.length : K) out0 Ss v
+      = penalisedFull (hessTimes c img x out0 All v) priorOfInput := by
+  rw [hessTimesPenFull_eq, length_mul_share Ss hn, hessTimes_perm c img x out0 h v]; rfl
+
+/-- likewise `add_multiplication_with_approximate_Hessian` -/
+theorem C05_penalised_full_approxHess (c : Consts K) (x : Nat → K) (Ss : List (List (Viewgram K)))
+    (All : List (Viewgram K)) (h : Ss.flatten.Perm All) (hn : Ss ≠ []) (priorOfInput out0 : K) (v : Nat) :
+    approxHessPenFull c x priorOfInput (Ss.length : K) out0 Ss v
+      = penalisedFull (approxHess c x out0 All v) priorOfInput := by
+  rw [approxHessPenFull_eq, length_mul_share Ss hn, approxHess_perm c x out0 h v]; rfl
+
+/-! ## "every legal number of subsets", "maximum segment … range", "TOF and non-TOF … with … proj-data … normalisation":
+what `set_up` makes of the configuration -/
+
+/-- `set_up` accepts a number of subsets exactly when subset sensitivities are used or all subsets contain the same number
+    of viewgrams (the counts are those of `actual_subsets_are_approximately_balanced`; the harness compares the refusal of
+    the implementation with this function on counts it obtains independently) -/
+theorem C05_setUp_accepts_iff (useSubsetSens : Bool) (counts : List Nat) :
+    setUpAcceptsSubsets useSubsetSens counts = true ↔ (useSubsetSens = true ∨ ∀ a ∈ counts, ∀ b ∈ counts, a = b) := by
+  rw [← subsetsBalanced_iff]
+  unfold setUpAcceptsSubsets
+  cases useSubsetSens <;> cases subsetsBalanced counts <;> simp
+
+/-- the segment range after `set_up`: the maximum of the data for the setting `-1`, the setting itself otherwise; refused
+    exactly when the setting exceeds the data -/
+theorem C05_segRange (setting dataMax : Int) :
+    (segRangeAfterSetUp setting dataMax = none ↔ (setting ≠ -1 ∧ dataMax < setting)) ∧
+    ∀ m, segRangeAfterSetUp setting dataMax = some m → m ≤ dataMax ∧ (setting = -1 → m = dataMax) ∧ (setting ≠ -1 → m = setting) := by
+  unfold segRangeAfterSetUp
+  by_cases hs : setting = -1
+  · subst hs
+    simp
+  · have hb : (setting == -1) = false := by simpa using hs
+    simp only [hb, Bool.false_eq_true, if_false]
+    constructor
+    · by_cases hgt : setting > dataMax
+      · simp [hgt, hs]
+      · simp [hgt, hs]
+    · intro m hm
+      by_cases hgt : setting > dataMax
+      · simp [hgt] at hm
+      · simp only [hgt, if_false, Option.some.injEq] at hm
+        subst hm
+        exact ⟨by omega, fun h => absurd h hs, fun _ => rfl⟩
+
+/-- TOF data with normalisation factors per TOF bin: when `set_up` computes the sensitivities it does so with the same (TOF)
+    projector as the gradient — whatever `use_tofsens` was — so that `C05_grad_eq_gradPlusSens_sub_sens` applies to what the
+    library computes; without TOF factors the switch is left as the user set it -/
+theorem C05_tof_norm_uses_same_projector (useTofsens tofData : Bool) (links : List Bool) (h : true ∈ links) :
+    sensUsesSameProjector tofData (useTofsensAfterSetUp true useTofsens tofData (isTofOnlyNorm links)) = true := by
+  have hl : isTofOnlyNorm links = true := by
+    unfold isTofOnlyNorm; exact List.any_eq_true.mpr ⟨true, h, rfl⟩
+  rw [hl]
+  cases useTofsens <;> cases tofData <;> rfl
+
+theorem C05_tofsens_unchanged_without_tof_norm (recompute useTofsens tofData : Bool) (links : List Bool) (h : true ∉ links) :
+    useTofsensAfterSetUp recompute useTofsens tofData (isTofOnlyNorm links) = useTofsens := by
+  have hl : isTofOnlyNorm links = false := by
+    unfold isTofOnlyNorm
+    rw [Bool.eq_false_iff]; intro hh
+    obtain ⟨b, hb, hb'⟩ := List.any_eq_true.mp hh
+    simp only [id] at hb'; subst hb'; exact h hb
+  rw [hl]
+  cases recompute <;> cases useTofsens <;> cases tofData <;> rfl
+
+/-- non-vacuity: 4 views in 3 subsets (2, 1, 1 viewgrams) are refused without subset sensitivities and accepted with them;
+    a chain `table × FromProjData(TOF)` switches the TOF sensitivity on; segment settings -1, 1, 3 on data with maximum 2 -/
+example : setUpAcceptsSubsets false [2, 1, 1] = false ∧ setUpAcceptsSubsets true [2, 1, 1] = true ∧
+    setUpAcceptsSubsets false [2, 2] = true := by decide
+
+example : useTofsensAfterSetUp true false true (isTofOnlyNorm [false, true]) = true ∧
+    useTofsensAfterSetUp false false true (isTofOnlyNorm [false, true]) = false := by decide
+
+example : segRangeAfterSetUp (-1) 2 = some 2 ∧ segRangeAfterSetUp 1 2 = some 1 ∧ segRangeAfterSetUp 3 2 = none := by decide
+
 /-! ## "… equal the expressions derived from L = Σ_b [y_b log(ybar_b) − ybar_b] with ybar = n(Pλ + a) … wherever ybar_b > 0"
 The code's thresholds appear as the regular regions `RegularGrad`, `RegularValue`, `RegularHess` (ProofsTextbook.lean). -/
 
@@ -156,6 +245,19 @@ example : RegularGrad exC true exImg exS ∧ RegularValue exC true exImg exS ∧
 example : ([[[exB3]], [[exB1, exB2]]] : List (List (Viewgram ℚ))).flatten.Perm exS := by
   simp only [List.flatten_cons, List.flatten_nil, List.append_nil, List.singleton_append, exS]
   exact List.Perm.swap _ _ _
+
+/-- non-vacuity of `C05_penalised_full_hessTimes`: two subsets in an order different from the data, a prior term 3/2, output
+    filled with 1/4: both sides are the same number, and it differs from the unpenalised product -/
+example : hessTimesPenFull exC exImg exX (3 / 2) 2 (1 / 4) [[[exB3]], [[exB1, exB2]]] 1
+      = penalisedFull (hessTimes exC exImg exX (1 / 4) exS 1) (3 / 2) ∧
+    hessTimesPenFull exC exImg exX (3 / 2) 2 (1 / 4) [[[exB3]], [[exB1, exB2]]] 1 ≠ hessTimes exC exImg exX (1 / 4) exS 1 := by
+  have h := C05_penalised_full_hessTimes exC exImg exX [[[exB3]], [[exB1, exB2]]] exS
+    (by simp only [List.flatten_cons, List.flatten_nil, List.append_nil, List.singleton_append, exS]; exact List.Perm.swap _ _ _)
+    (by simp) (3 / 2) (1 / 4) 1
+  simp only [List.length_cons, List.length_nil] at h
+  norm_num at h
+  refine ⟨h, ?_⟩
+  rw [h]; unfold penalisedFull; norm_num
 
 /-- negative witness: with `zero_seg0_end_planes = true` the Hessian product still contains the end-plane bin `exB2`
     (replayed on the implementation by the harness oracle, key `hessian:ignores-zero-seg0-end-planes`) -/
